@@ -199,6 +199,18 @@ def r2(ctx, facts):
             ko, vo = b.operand_origin(rv["ops"][ki], at=(po[1], po[2])), b.operand_origin(rv["ops"][vi], at=(po[1], po[2]))
             if not (all(b.depends_on_call(ko, ob, ("0",)) for ob in opens) and all(b.depends_on_call(vo, ob, ("1",)) for ob in opens)):
                 ok, why = False, "the producer's keys / values are not the (mask, values) of the single open() (keys %r, values %r)" % (ko, vo)
+                continue
+            # ... and the key producer starts from the mask's own *full* iterator: between open() and the producer the keys pass through
+            # BitSetLike::iter (and nothing else).  A hand-assembled or pre-advanced iterator state (BitIter::new with computed layer
+            # masks / prefixes, skip/filter adaptors, a helper doing that) is where "every index of the intersection" is lost.
+            extra = sorted({(b.term(d[1])["callee"].get("path") or "?") for d in b.deps(ko) if d[0] == "call" and not b.term(d[1]).get("ghost")
+                            and norm(b.term(d[1])["callee"].get("path")) != "JOIN::open"
+                            and not (b.term(d[1])["callee"].get("name") in ("iter", "into_iter") and "BitSetLike" in (b.term(d[1])["callee"].get("trait") or b.term(d[1])["callee"].get("path") or ""))
+                            and b.term(d[1])["callee"].get("name") not in ("deref", "borrow", "as_ref", "clone")})
+            iters = [d for d in b.deps(ko) if d[0] == "call" and b.term(d[1])["callee"].get("name") in ("iter", "into_iter")]
+            if extra or not iters:
+                ok, why = False, ("the key producer is not started from the mask's own full iterator (BitSetLike::iter of the opened mask): its keys also "
+                                  "depend on %s - indices of the intersection can be skipped" % (extra or "no iter() call at all"))
         ctx.ob("C07-R2", "drive_unindexed opens once and produces from that mask and those values", ok, b.loc(), why)
 
 
